@@ -306,6 +306,29 @@ M[-1]['extra_edits'] = [('UncompressedFile.h', [["    /** put position */\n    s
 mut('data-tail-skipped', 'CanFdMessage.cpp', [["    is.read(reinterpret_cast<char *>(data.data()), static_cast<std::streamsize>(data.size()));", "    is.read(reinterpret_cast<char *>(data.data()), validDataBytes & 63);\n    is.seekg(static_cast<std::streamoff>(data.size()) - (validDataBytes & 63), std::ios_base::cur);"]],
     ['C02'], ['L7|CanFdMessage|skip'], 'the bytes of the fixed data field behind validDataBytes are stepped over: an image that carries something there is not reproduced')
 
+mut('object-flags-masked-on-read', 'ObjectHeader.cpp', [["    is.read(reinterpret_cast<char *>(&objectFlags), sizeof(objectFlags));\n    is.read(reinterpret_cast<char *>(&clientIndex), sizeof(clientIndex));\n    is.read(reinterpret_cast<char *>(&objectVersion), sizeof(objectVersion));\n    is.read(reinterpret_cast<char *>(&objectTimeStamp), sizeof(objectTimeStamp));\n}\n\nvoid ObjectHeader::write",
+                                                              "    is.read(reinterpret_cast<char *>(&objectFlags), sizeof(objectFlags));\n    is.read(reinterpret_cast<char *>(&clientIndex), sizeof(clientIndex));\n    is.read(reinterpret_cast<char *>(&objectVersion), sizeof(objectVersion));\n    is.read(reinterpret_cast<char *>(&objectTimeStamp), sizeof(objectTimeStamp));\n    objectFlags &= 3;\n}\n\nvoid ObjectHeader::write"]],
+    ['C02'], ['overwritten:objectFlags'], 'flag bits other than the two known ones are dropped on decode: the image is not reproduced')
+mut('container-size-16-bit-accumulator', 'LogContainer.cpp', [["    return\n        internalHeaderSize() +\n        static_cast<uint32_t>(compressedFile.size());", "    auto size = internalHeaderSize();\n    size += static_cast<uint32_t>(compressedFile.size());\n    return size;"]],
+    ['C04', 'C03'], ['L3|LogContainer'], 'the container objectSize wraps at 65536: stored containers of 64 KiB and more are mis-declared')
+mut('close-aborts-before-stopping-inflater', 'File.cpp', [["        /* finalize compressedFileThread */\n        m_compressedFileThreadRunning = false;\n        m_compressedFile.close();\n\n        /* finalize uncompressedFileThread */\n        m_uncompressedFileThreadRunning = false;\n        m_uncompressedFile.abort();\n\n        /* abort readWriteQueue */\n        m_readWriteQueue.abort();\n\n        /* finalize compressedFileThread */\n        if (m_compressedFileThread.joinable())\n            m_compressedFileThread.join();\n",
+                                                              "        /* finalize uncompressedFileThread */\n        m_uncompressedFileThreadRunning = false;\n        m_uncompressedFile.abort();\n\n        /* abort readWriteQueue */\n        m_readWriteQueue.abort();\n\n        /* finalize compressedFileThread */\n        if (m_compressedFileThread.joinable())\n            m_compressedFileThread.join();\n        m_compressedFileThreadRunning = false;\n        m_compressedFile.close();\n"]],
+    ['C12'], ['K14|close|read'], 'an early close inflates the rest of the file into memory before it returns')
+mut('read-drops-consumed', 'UncompressedFile.cpp', [["        n -= gcount;\n    }\n\n    /* notify */\n    tellgChanged.notify_all();", "        n -= gcount;\n    }\n    while (!m_data.empty() && (m_data.front()->uncompressedFileSize + m_data.front()->filePosition <= m_tellg))\n        m_data.pop_front();\n\n    /* notify */\n    tellgChanged.notify_all();"]],
+    ['C15', 'C12', 'C01'], ['P9|who-may-drop'], 'a read releases what it passed: the header peek followed by seekg(-16) across a container border returns into nothing')
+mut('queue-write-drops-when-full', 'ObjectQueue.cpp', [["    /* push data */\n    m_queue.push(obj);", "    if (static_cast<uint32_t>(m_queue.size()) >= m_bufferSize) {\n        delete obj;\n        return;\n    }\n\n    /* push data */\n    m_queue.push(obj);"]],
+    ['C16'], ['Q5|write'], 'an object written while the queue is aborted and full is deleted instead of delivered')
+mut('queue-eof-by-difference', 'ObjectQueue.cpp', [["        (m_tellg >= m_fileSize);", "        ((m_fileSize - m_tellg) == 0);"]],
+    ['C16'], ['Q4|read'], 'a declared size below the get count wraps: the reader is never released')
+mut('objecttype-set-in-write', 'CanMessage.cpp', [["void CanMessage::write(AbstractFile & os) {\n    ObjectHeader::write(os);", "void CanMessage::write(AbstractFile & os) {\n    objectType = ObjectType::CAN_MESSAGE;\n    ObjectHeader::write(os);"]],
+    ['C17'], ['D5|objectType|never-reassigned'], 'the encoder overwrites the type code the object carries')
+mut('file-write-diverts-restore-points', 'File.cpp', [["void File::write(ObjectHeaderBase * ohb) {\n", "void File::write(ObjectHeaderBase * ohb) {\n    if (ohb->objectType == ObjectType::Unknown115) {\n        delete ohb;\n        return;\n    }\n"]],
+    ['C01', 'C13'], ['A1|File::write'], 'objects of one type handed to write() never reach the queue')
+mut('end-of-stream-from-side-count', 'File.cpp', [["    /* set end of file (on every way out, otherwise the consumer waits forever) */\n    file->m_uncompressedFile.setFileSize(file->m_uncompressedFile.tellp());\n}\n\nvoid File::compressedFileWriteThread", "    /* set end of file (on every way out, otherwise the consumer waits forever) */\n    file->m_uncompressedFile.setFileSize(static_cast<std::streamsize>(file->currentUncompressedFileSize));\n}\n\nvoid File::compressedFileWriteThread"]],
+    ['C06', 'C10', 'C08'], ['K5v|File::compressedFileReadThread'], 'the declared end comes from a count kept on the side, not from what was delivered')
+mut('open-adds-in-flag', 'CompressedFile.cpp', [["    m_file.open(filename, openMode);", "    m_file.open(filename, openMode | std::ios_base::in);"]],
+    ['C14', 'C04'], ['F7|CompressedFile::open'], 'an output file is no longer truncated: the tail of an earlier, longer file survives')
+
 # ------------------------------------------------------------------ benign refactorings (must stay silent)
 ALL_LAYOUT = ['C01', 'C02', 'C03', 'C10', 'C14']
 ben('reorder-size-terms', 'AppText.cpp', [["        sizeof(source) +\n        sizeof(reservedAppText1) +", "        sizeof(reservedAppText1) +\n        sizeof(source) +"]], ALL_LAYOUT)
